@@ -25,6 +25,10 @@ INVALID_NUMERIC = frozenset(
     ('inf', '+inf', '-inf', 'nan', 'infinity', '+infinity', '-infinity')
 )
 
+DOUBLE_LEXICAL_PATTERN = re.compile(
+    r'^[+-]?(?:[0-9]+(?:\.[0-9]*)?|\.[0-9]+)(?:[Ee][+-]?[0-9]+)?$'
+)
+
 MathArgType = Union[SupportsFloat, SupportsIndex]
 FloatArgType = Union[SupportsFloat, SupportsIndex, str]
 
@@ -287,7 +291,8 @@ def get_double(value: FloatArgType, xsd_version: str | None = None) -> float:
         if value in NUMERIC_INF_OR_NAN and (xsd_version != '1.0' or value != '+INF'):
             if value == 'NaN':
                 return math.nan  # for NaN use the predefined instance to keep identity
-        elif value.lower() in INVALID_NUMERIC:
+        elif DOUBLE_LEXICAL_PATTERN.match(value) is None:
+            # float() accepts more than the lexical space ('1_0', 'nan', 'infinity', non-ASCII digits)
             raise ValueError(f'invalid value {value!r} for xs:double/xs:float')
     elif math.isnan(value):
         return math.nan
